@@ -108,6 +108,81 @@ impl VerifBox for RefBox {
                     (a, b) => format!("err diverge {:?} {:?}", a, b),
                 }
             }
+            // ---- ed25519 key material. Each answer is followed by ` | <facts>`: what the curve library says
+            // about the parts of the input (inputs of the model).
+            ["kpbytes", data, ..] if is_hex(data) => {
+                use libp2p_identity::ed25519;
+                let original = unhex(data);
+                let mut buffer = original.clone();
+                let result = match ed25519::Keypair::try_from_bytes(&mut buffer) {
+                    Ok(kp) => format!(
+                        "ok pub={} sec={} zeroed={} rt={} c=1",
+                        hex(&kp.public().to_bytes()),
+                        hex(kp.secret().as_ref()),
+                        buffer.iter().all(|b| *b == 0) as u8,
+                        (kp.to_bytes()[..] == original[..]) as u8
+                    ),
+                    Err(_) => format!("err kept={}", (buffer == original) as u8),
+                };
+                let derive = if original.len() >= 32 {
+                    match ed25519::SecretKey::try_from_bytes(original[..32].to_vec()) {
+                        Ok(sk) => hex(&ed25519::Keypair::from(sk).public().to_bytes()),
+                        Err(_) => "-".to_string(),
+                    }
+                } else {
+                    "-".to_string()
+                };
+                let valid = original.len() == 64 && ed25519::PublicKey::try_from_bytes(&original[32..]).is_ok();
+                format!("{result} | derive={derive} valid={}", valid as u8)
+            }
+            ["skbytes", data, ..] if is_hex(data) => {
+                use libp2p_identity::ed25519;
+                let original = unhex(data);
+                let mut buffer = original.clone();
+                match ed25519::SecretKey::try_from_bytes(&mut buffer) {
+                    Ok(sk) => {
+                        let sec = hex(sk.as_ref());
+                        let public = hex(&ed25519::Keypair::from(sk).public().to_bytes());
+                        format!(
+                            "ok sec={sec} pub={public} zeroed={} | derive={public}",
+                            buffer.iter().all(|b| *b == 0) as u8
+                        )
+                    }
+                    Err(_) => format!("err kept={} | derive=-", (buffer == original) as u8),
+                }
+            }
+            ["pkbytes", data, ..] if is_hex(data) =>
+                match libp2p_identity::ed25519::PublicKey::try_from_bytes(&unhex(data)) {
+                    Ok(key) => format!("ok {} c=1 | valid=1", hex(&key.to_bytes())),
+                    Err(_) => format!("err badkey | valid={}", 0),
+                },
+            ["pkproto", data, ..] if is_hex(data) => match PublicKey::try_decode_protobuf(&unhex(data)) {
+                Ok(key) => match key.try_into_ed25519() {
+                    Ok(key) => format!("ok {}", hex(&key.to_bytes())),
+                    Err(_) => "err type".to_string(),
+                },
+                Err(_) => "err".to_string(),
+            },
+            ["edverify", key, msg, sig, ..] if is_hex(key) && is_hex(msg) && is_hex(sig) =>
+                match libp2p_identity::ed25519::PublicKey::try_from_bytes(&unhex(key)) {
+                    Ok(key) => key.verify(&unhex(msg), &unhex(sig)).to_string(),
+                    Err(_) => "err badkey".to_string(),
+                },
+            ["edsign", sk, msg, ..] if is_hex(sk) && is_hex(msg) => {
+                use libp2p_identity::ed25519;
+                match ed25519::SecretKey::try_from_bytes(unhex(sk)) {
+                    Ok(sk) => {
+                        let kp = ed25519::Keypair::from(sk);
+                        let sig = kp.sign(&unhex(msg));
+                        format!("ok {} v={}", hex(&sig), kp.public().verify(&unhex(msg), &sig) as u8)
+                    }
+                    Err(_) => "err badkey".to_string(),
+                }
+            }
+            ["conv", data, ..] if is_hex(data) => match PeerId::from_bytes(&unhex(data)) {
+                Ok(peer) => format!("ok {}", hex(&peer.to_bytes())),
+                Err(_) => "err multihash".to_string(),
+            },
             ["b58dec", text, ..] | ["b58enc", text, ..] | ["serde", text, ..] if is_hex(text) => "-".to_string(),
             ["deser", "hr" | "bin", data, ..] if is_hex(data) => "-".to_string(),
             _ => "bad-op".to_string(),
